@@ -480,7 +480,8 @@ class C22(Prop):
                         msg=(o.get("msg") or "")[:80])
             else:
                 if is_cycle_err:
-                    g = next((g for g in log.gets if g["exc"] and CYCLE_MSG in g["exc"]), None)
+                    # the request that raised first (innermost: it is the first to end with the error)
+                    g = min((g for g in log.gets if g["exc"] and CYCLE_MSG in g["exc"]), key=lambda g: g["s1"], default=None)
                     r.v("false_cycle_error", concurrent_resolutions=bool(g and other_open_at(g["tid"], g["s0"])),
                         chain=o["msg"].split(": ", 1)[-1][:80], multi_run=len(runs) > 1)
                 elif o["kind"] == "failed":
